@@ -116,8 +116,8 @@ func c16a(c *Ctx) {
 	}
 	// 2. one whole line
 	{
-		ws := writeSites(emit)
-		ok := len(ws) == 1 && ws[0].isFmt && ws[0].format == "# %d \"%s\"\n" && len(ws[0].args) == 2 && c.term(emit, ws[0].args[0]) == "$1" && strings.Contains(c.term(emit, ws[0].args[1]), "$2")
+		ws := c.sitesOf(emit)
+		ok := len(ws) == 1 && ws[0].isFmt && ws[0].format == "# %d \"%s\"\n" && len(ws[0].argT) == 2 && ws[0].argT[0] == "$1" && strings.Contains(ws[0].argT[1], "$2")
 		c.Check(ok, "emitLineMarker/one-line", c.W.FuncPos(emit), "a marker is one whole line '# <line> \"<file>\"'", "emitLineMarker does not write exactly one line of the form '# <line> \"<file>\"' from its arguments")
 	}
 	roles := markerRoles(c)
@@ -146,10 +146,10 @@ func c16a(c *Ctx) {
 			n++
 			path := c.term(fn, call.Common().Args[2])
 			guard := false
-			for _, l := range c.mustLits(fn, call.Block()) {
-				if strings.HasPrefix(l, "+emitter.shouldEmitLineMarkers(") && strings.HasSuffix(l, ","+path+")") {
-					en := strings.TrimSuffix(strings.TrimPrefix(l, "+emitter.shouldEmitLineMarkers("), ","+path+")")
-					if in(roleTerm(fn, 0), en) {
+			must := c.mustLits(fn, call.Block())
+			if hasLit(must, "+(0 < builtin:len("+path+"))") {
+				for _, en := range roleTerm(fn, 0) {
+					if hasLit(must, "+"+en) {
 						guard = true
 					}
 				}
@@ -216,10 +216,15 @@ func c16a(c *Ctx) {
 	// 6. raw statement: same text in both arms
 	if fn := c.Fn("emitter.Emitter.emitRawStatement"); fn != nil {
 		var plainW, lineW *writeSite
-		ws := writeSites(fn)
+		var ws []writeSite
+		for _, w := range c.sitesOf(fn) {
+			if w.origin != emit { // marker lines are the subject of C16.b
+				ws = append(ws, w)
+			}
+		}
 		for i := range ws {
-			if ws[i].isFmt && ws[i].format == "%s\n" && len(ws[i].args) == 1 {
-				t := c.term(fn, ws[i].args[0])
+			if ws[i].isFmt && ws[i].format == "%s\n" && len(ws[i].argT) == 1 {
+				t := ws[i].argT[0]
 				if t == "$1.Value" {
 					plainW = &ws[i]
 				}
@@ -230,7 +235,7 @@ func c16a(c *Ctx) {
 		}
 		ok := plainW != nil && lineW != nil && len(ws) == 2
 		if ok {
-			ok = hasLit(c.mustLits(fn, plainW.call.Block()), "-emitter.shouldEmitLineMarkers($0.enableLineMarkers,$0.inputFilepath)") && noEarlyExit(c, fn, lineW.call.Block())
+			ok = dnfEquiv(plainW.cond, mkDNF([]string{"-$0.enableLineMarkers"}, []string{"-(0 < builtin:len($0.inputFilepath))"})) && noEarlyExit(c, fn, lineW.call.Block())
 		}
 		c.Check(ok, "emitRawStatement/same-text", c.W.FuncPos(fn), "without markers: Value + newline; with markers: every line of Value + newline, each preceded by its marker", "the raw block is not written as (Value + \"\\n\") without markers and as every line of Split(Value, \"\\n\") + \"\\n\" with markers")
 	}
